@@ -211,7 +211,7 @@ def ops(s, budget, letters="RCIM", phase_ops=True, gone=(), analysis_op=False):
         for c, t in [(1, n) for n in names] + [(2, r) for r in rails] + [(2, "nope")]:
             add(c, ["cp", t, ["p"], "l"])
             add(c, ["cp", t, [["p", 0.05]], "d"])
-            add(c + 1, ["cp", t, [["p", 0.0], ["q", 0.02]], "d"])   # an explicit zero for one phase
+            add(c, ["cp", t, [["p", 0.0], ["q", 0.02]], "d"])   # an explicit zero for one phase
             add(c + 1, ["cp", t, 123, "x"])
     return out
 
